@@ -5,5 +5,5 @@ From Coq Require Import ExtrOcamlBasic.
 From C05 Require Import Model Checker ExtModel GF2Model QadicModel.
 Extraction Language OCaml.
 Cd "ocaml".
-Extraction "model.ml" mk_tables dump_pol2log dump_plus1 op1 op2 op3 arr dot tables_ok fg_ok ext_opZ ext_invZ gf2_opZ q_initZ q_maxn.
+Extraction "model.ml" mk_tables dump_pol2log dump_plus1 op1 op2 op3 arr arrl dot tables_ok fg_ok ext_opZ ext_invZ gf2_opZ q_initZ q_maxn.
 Cd "..".
